@@ -54,6 +54,18 @@ theorem nonzeroLit_real (env : SEnv) (sc : List Binding) (x : Sexp) (hx : isNonz
         rw [← h]; exact hx
       | none => simp [hd] at hx
 
+theorem nonzero_numLit {x : Sexp} (h : isNonzeroLit x = true) : isNumLit x = true := by
+  match x, h with
+  | .atom tok, h =>
+    simp only [isNonzeroLit] at h
+    simp only [isNumLit]
+    cases hn : numeral? tok with
+    | some n => simp
+    | none =>
+      cases hd : decimal? tok with
+      | some q => simp
+      | none => simp [hn, hd] at h
+
 theorem isNumConst_int (n : Int) : isNumConst (Term.int n) = some (.inl n) := rfl
 theorem isNumConst_realc (q : Rat) : isNumConst (Term.real q) = some (.inr q) := rfl
 
@@ -97,7 +109,7 @@ theorem minusArg_const (env : SEnv) (sc : List Binding) (x : Sexp) (hx : minusAr
             obtain ⟨rfl, rfl⟩ := hc
             rcases numLit_const env sc a ha u1 _ h1 with ⟨n, _, ht⟩ | ⟨q1, rfl, _⟩
             · cases ht
-            · rcases numLit_const env sc b hb u2 _ h2 with ⟨n, _, ht⟩ | ⟨q2, rfl, _⟩
+            · rcases numLit_const env sc b (nonzero_numLit hb) u2 _ h2 with ⟨n, _, ht⟩ | ⟨q2, rfl, _⟩
               · cases ht
               · have hq2 := nonzeroLit_real env sc b hb q2 h2
                 simp only [isNumConst_realc, ne_eq, hq2, not_false_eq_true, if_true] at hr
